@@ -528,7 +528,7 @@ class EngineListener:
             for msg in check_branch(stack, ne, dus, top0, top1, box0, flags0, d, int(events)):
                 self.viol("C09", msg[0], f"value heuristic {i} on domain {d}=[{int(box0[d][0])},{int(box0[d][1])}]: {msg[1]}")
             self.probes["branch_checked"] += 1
-            if box0[d][1] - box0[d][0] == 1:
+            if int(box0[d][1]) - int(box0[d][0]) == 1:
                 self.probes["branch_size2"] += 1
             if top1 - top0 == 2:
                 self.probes["branch_three_way"] += 1
